@@ -22,23 +22,44 @@ def run(tier):
     rnd = random.Random(seed() + 12)
     wd = cli.Workdir("c12")
     tr = os.path.join(WORK, "trace_C12.ndjson")
+    evtrace = os.path.join(WORK, "trace_C12_events.ndjson")
+    open(evtrace, "w").close()
     i = 0
     modes = [m for m in clitrace.MODES if m["fmt"] in ("sjson", "junit", "summary", "pjson") and m.get("shows", ["PASS", "FAIL", "SKIP"]) == ["PASS", "FAIL", "SKIP"] and "-v" not in m["args"]]
     with open(tr, "w") as f:
-        pairs = clitrace.gen_pairs(seed() * 31337, n_batches * 4, "full")
+        pairs = clitrace.add_refs(clitrace.gen_pairs(seed() * 31337, n_batches * 8, "full"))
         for b in range(n_batches):
-            chunk = pairs[b * 4:(b + 1) * 4]
+            chunk = pairs[b * 8:(b + 1) * 8]
             nr = rnd.randint(2, 3)
             nd = rnd.randint(2, 4)
+            if b % 5 != 4:
+                # an evaluation error aborts the whole run and nothing of the batch is shown: most batches are
+                # made of rules files that evaluate on their own document (the fifth keeps whatever comes)
+                good = [c for q, c in enumerate(chunk)
+                        if not clitrace.pick_keys(wd, "b%dg%d" % (b, q), [c["rules"]], [c["data"]])[0].startswith("error")]
+                chunk = good + [c for c in chunk if c not in good]
             rules = [{"parse": "ok", "prog": c["prog"], "text": c["rules"]} for c in chunk[:nr]]
-            data = [{"load": "ok", "doc": c["doc"], "text": c["data"]} for c in chunk[:nd]]
+            # data files: the documents the rules were generated for and variants of them, so that
+            # the same rule has different statuses on different files of the batch
+            cdocs = [c["doc"] for c in chunk[:nr]] + [clitrace.mutate_doc(chunk[q % nr]["doc"], rnd) for q in range(6)]
+            ctexts = clitrace.render_docs(cdocs)
+            pick = clitrace.pick_differing(wd, "b%d" % b, [r["text"] for r in rules], ctexts, nd, rnd, avoid_errors=(b % 5 != 4))
+            docs = [cdocs[q] for q in pick]
+            texts = [ctexts[q] for q in pick]
+            data = [{"load": "ok", "doc": dd, "text": tt} for dd, tt in zip(docs, texts)]
             for rep in range(2):
                 rnd.shuffle(rules)
                 rnd.shuffle(data)
                 mode = modes[(b + rep) % len(modes)]
                 entry = "payload" if (b + rep) % 3 == 0 else "files"
                 i += 1
-                f.write(json.dumps(clitrace.run_job(wd, i, rules, data, [], mode, entry)) + "\n")
+                evp = os.path.join(wd.path, "events_%d.ndjson" % i)
+                f.write(json.dumps(clitrace.run_job(wd, i, rules, data, [], mode, entry, events=evp)) + "\n")
+                with open(evtrace, "a") as ef:
+                    ef.write(json.dumps({"e": "begin", "i": i}) + "\n")
+                    if os.path.exists(evp):
+                        ef.write(open(evp).read())
+                    ef.write(json.dumps({"e": "end", "i": i, "ok": True, "check": False, "rules": []}) + "\n")
             # directory arguments with -a: rules directory and data directory
             i += 1
             f.write(json.dumps(dir_job(wd, i, rules, data)) + "\n")
@@ -48,14 +69,43 @@ def run(tier):
     res.cov["batches"] = n_batches
     for l in lines[:2]:
         res.sample({"cli_line": {k: l[k] for k in ("mode", "cmd")}, "pairs_shown": len(l["obs"]["shown"])})
-    os.remove(tr)
-    # 3. a fresh RootScope per pair and nothing served from another pair's cache / memo
+    if not os.environ.get("VERIF_KEEP"): os.remove(tr)
+    # 3. a fresh RootScope per pair and nothing served from another pair's cache / memo: the
+    #    hook events of the batch runs themselves (pair_begin must be followed by root_scope_new)
+    #    and of library evaluations
+    cli_events(res, evtrace)
     c04.memo_trace(res, tier, 600 if tier == "quick" else 8000, ["full"], seed_mul=86028121)
+    # 4. the test cases inside one `cfn-guard test` file: every case judged against Denote of its own
+    #    input (TraceTest), inputs chosen so that the same rule differs between the cases of a file,
+    #    plus the hook events of those runs (a fresh RootScope per test case)
+    import c16
+    c16.run_trace(res, tier)
     res.cov["rule"] = ("MC_Cli.BatchIsUnionOfPairs over all driver scenarios; batches of 2-3 generated rules files x 2-4 documents in "
                        "shuffled orders as files, directories (-a) and payload lists, every pair of the batch judged against Denote of "
                        "that pair alone; hook traces: one fresh RootScope per evaluation and no cache hit / memo read before a computation "
-                       "in the same scope (TraceMemo)")
+                       "in the same scope (TraceMemo); `cfn-guard test` files with 1-4 cases whose inputs make the same rule differ "
+                       "between the cases (TraceTest + TraceMemo over the test runs' hook events)")
     return res.finish()
+
+
+def cli_events(res, evtrace):
+    nev = sum(1 for _ in open(evtrace))
+    r = tlc("TraceMemo", env={"TRACE": evtrace}, workers=1, timeout=3000, tag="tmemo_cli" + res.prop, heap="6g")
+    res.add("states", r["distinct"])
+    res.add("transitions", r["states"])
+    if "TRACE-REJECTED" in r["out"] or not r["ok"]:
+        rej = tlc_tuples(r["out"], "TRACE-REJECTED")
+        at = rej[0][1] if rej else 0
+        evs = open(evtrace).read().split("\n")
+        res.violation("scope-discipline:cli-event-not-allowed-by-GuardMachine",
+                      {"rejected_event": evs[at - 1] if at else "", "context": evs[max(0, at - 12):at + 2]})
+    else:
+        res.add("hook_events_validated", nev)
+    npairs = sum(1 for l in open(evtrace) if '"pair_begin"' in l)
+    res.cov["cli_pairs_observed"] = npairs
+    if npairs == 0:
+        raise ToolError("no pair_begin event observed (hooks not compiled in?)")
+    os.remove(evtrace)
 
 
 def dir_job(wd, i, rules, data):
